@@ -103,7 +103,13 @@ def _grid_cases(draw, tier):
     sub = None
     if d["kind"] != "volume" and draw(st.booleans()):
         sub = [draw(gen.params(pdim)), draw(gen.params(pdim))]
-    return {"defn": d, "n": list(ns), "single_delta": use_single_delta, "sub": sub, "via_sample_size": draw(st.booleans())}
+    raw = None
+    if draw(st.integers(0, 4)) == 0:
+        # densities given directly as delta values that are not 1/N (incl. values where 1/delta is a half-integer)
+        raw = [draw(st.sampled_from([0.4, 0.08, 2.0 / 9.0, 0.3, 0.15, 0.35, 0.22, 0.6, 2.0 / 7.0, 0.0625, 0.13])) for _ in range(pdim)]
+        if d["kind"] == "volume":
+            raw = [max(x, 0.2) for x in raw]
+    return {"defn": d, "n": list(ns), "single_delta": use_single_delta, "sub": sub, "via_sample_size": draw(st.booleans()), "raw_delta": raw}
 
 
 def _multiset(pts):
@@ -117,7 +123,17 @@ def check_grid(case, ctx):
     R = build.exact_from(d, obj)
     ns = case["n"]
     pdim = len(ns)
-    if case.get("via_sample_size"):
+    if case.get("raw_delta"):
+        import math
+        raw = case["raw_delta"]
+        obj.delta = raw[0] if pdim == 1 else tuple(raw)
+        # documented relation between delta and the number of samples: sample_size = floor(1/delta + 0.5)
+        ns = [int(math.floor(1.0 / x + 0.5)) for x in raw]
+        ctx.label("raw-delta")
+        per_dir = [obj.sample_size] if pdim == 1 else [getattr(obj, "sample_size_" + c) for c in "uvw"[:pdim]]
+        ctx.check(per_dir == ns, "sample_size", "delta %r gives per-direction sample sizes %r, documented floor(1/delta + 0.5) = %r" % (raw, per_dir, ns))
+        ctx.check(list(obj.data["sample_size"]) == ns, "sample_size", "delta %r: the evaluators are handed sample sizes %r, the shape reports %r" % (raw, list(obj.data["sample_size"]), ns))
+    elif case.get("via_sample_size"):
         # the documented way to ask for N points per direction
         ctx.label("via-sample_size-setter")
         if pdim == 1 or case["single_delta"]:
